@@ -49,6 +49,12 @@ for fr in frags:
         q = props[:2] if tier == "quick" else props
         p = prop if prop in q else q[0]
         sel.setdefault(p, []).append(h["id"])
+if prop in sel and not os.environ.get("VERIF_EVAL_ALL_PROPS"):
+    # the question is whether the seed's OWN property check raises the alarm: harnesses registered only for other properties
+    # are skipped (set VERIF_EVAL_ALL_PROPS=1 to see cross-property detection too)
+    sel = {prop: sel[prop]}
+if False:
+    pass
 if (not sel or "src/lib.rs" in touched) and prop:
     # crate-root helpers are reached from everywhere: fall back to the whole quick/thorough check of the seed's own property
     for fr, h in vk.select(frags, prop, tier):
